@@ -1,7 +1,7 @@
 (* The paths tools/gopending2v regenerates from client/client.go (Client/PendingGen.v) against the discipline of
    Client/Pending.v, and what follows for any number of goroutines running them. *)
 From Coq Require Import List Arith Bool.
-From RPCX Require Import Client.Pending Client.PendingGen Client.PendingProofs.
+From RPCX Require Import Client.Pending Client.PendingGen Client.PendingProofs Client.PendingSeq Client.PendingSeqProofs.
 Import ListNotations.
 
 (* send, call (Client.Call / Client.Go and everything built on them), the reader and Close *)
@@ -15,6 +15,10 @@ Lemma strict_paths_are_strict : forallb (scheck true ainit) strict_paths = true.
 Proof. vm_compute. reflexivity. Qed.
 
 Lemma all_paths_are_disciplined : forallb (scheck false ainit) all_paths = true.
+Proof. vm_compute. reflexivity. Qed.
+
+(* the strict paths take their sequence numbers from the counter, within the critical section that registers the call *)
+Lemma strict_paths_number_their_calls : forallb (scheck2 a2init) strict_paths = true.
 Proof. vm_compute. reflexivity. Qed.
 
 (* a thread program made of runs of generated paths *)
@@ -47,29 +51,71 @@ Corollary client_goroutines_never_share_a_call progs sched :
   (forall t, runs_of all_paths (progs t)) -> bad (run sched (start progs)) = false.
 Proof. intros Hp. exact (proj1 (client_goroutines_are_safe progs sched Hp)). Qed.
 
+Lemma runs_checked2 paths prog :
+  forallb (scheck2 a2init) paths = true -> runs_of paths prog ->
+  Forall (fun ep => check2 a2init (snd ep) = true) prog.
+Proof.
+  intros Hc Hr. rewrite forallb_forall in Hc. induction Hr as [|ep r (sp & Hin & He) _ IH]; constructor; auto.
+  eapply scheck2_expands; eauto.
+Qed.
+
+(* send, call, the reader and Close, the sequence counter included: no table entry is ever overwritten (a registered
+   call stays registered until somebody takes it), every key in the table is below the counter *)
+Theorem client_goroutines_never_overwrite progs sched :
+  (forall t, runs_of strict_paths (progs t)) ->
+  let w := run2 sched (start2 progs) in
+  clob w = false /\ safe (base w) /\ none_stranded (base w) /\
+  (forall key c, lookup (pend (base w)) key = Some c -> key < ctr w).
+Proof.
+  intros Hp. apply strict_threads_never_overwrite.
+  - intros t. eapply runs_checked; [exact strict_paths_are_strict|apply Hp].
+  - intros t. eapply runs_checked2; [exact strict_paths_number_their_calls|apply Hp].
+Qed.
+
 (* ---------- the statements are about something: two callers, the reader and Close, run ---------- *)
 
 Definition flat (sp : list sop) : list pop :=
   flat_map (fun s => match s with S o => [o] | SLoop _ _ _ => [PEnd] end) sp.
 
-(* thread 0: a send that registers under sequence number 7 and returns; thread 1: a send under 8 whose write fails,
-   so it takes its call back; thread 2: the reader gets the reply to 7, then a second reply to 7 (nobody waits), then
+(* thread 0: a send that registers (under sequence number 0) and returns; thread 1: a send (number 1) whose write fails,
+   so it takes its call back; thread 2: the reader gets the reply to 0, then a second reply to 0 (nobody waits), then
    the connection ends: it sets shutdown and finds the table empty *)
 Definition ex_progs (t : tid) : list ((key -> nat) * list pop) :=
   match t with
-  | 0 => [(fun _ => 7, flat (nth 5 send_paths []))]
-  | 1 => [(fun _ => 8, flat (nth 2 send_paths []))]
-  | 2 => [(fun _ => 7, flat (nth 2 input_iter_paths [])); (fun _ => 7, flat (nth 0 input_iter_paths []));
-          (fun _ => 0, flat (nth 0 input_exit_paths []))]
+  | 0 => [(fun _ => 99, flat (nth 5 send_paths []))]
+  | 1 => [(fun _ => 99, flat (nth 2 send_paths []))]
+  | 2 => [(fun _ => 0, flat (nth 2 input_iter_paths [])); (fun _ => 0, flat (nth 0 input_iter_paths []));
+          (fun _ => 5, flat (nth 0 input_exit_paths []))]
   | _ => []
   end.
 Definition ex_sched : list (tid * nat) :=
-  repeat (0, 0) 8 ++ repeat (1, 0) 16 ++ repeat (2, 0) 40.
+  repeat (0, 0) 10 ++ repeat (1, 0) 18 ++ repeat (2, 0) 40.
 
 Example ex_runs :
-  let w := run ex_sched (start ex_progs) in
+  let w := base (run2 ex_sched (start2 ex_progs)) in
   bad w = false /\ next w = 2 /\ dones w 0 = 1 /\ dones w 1 = 1 /\ pend w = [] /\ shut w = true /\ lock w = None
   /\ pc (thr w 2) = [] /\ todo (thr w 2) = [].
+Proof. vm_compute. repeat split; reflexivity. Qed.
+
+(* two sends and the reader under the counter: the calls get the numbers 0 and 1, nothing is overwritten *)
+Example ex_runs2 :
+  let progs := fun t : tid => match t with
+                 | 0 => [(fun _ : key => 99, flat (nth 5 send_paths []))]
+                 | 1 => [(fun _ : key => 99, flat (nth 5 send_paths []))]
+                 | 2 => [(fun _ : key => 1, flat (nth 2 input_iter_paths []))]
+                 | _ => [] end in
+  let w := run2 (repeat (0, 0) 9 ++ repeat (1, 0) 9 ++ repeat (2, 0) 14) (start2 progs) in
+  clob w = false /\ ctr w = 2 /\ pend (base w) = [(0, 0)] /\ dones (base w) 1 = 1 /\ bad (base w) = false.
+Proof. vm_compute. repeat split; reflexivity. Qed.
+(* ... and what clob records: two registrations under one number *)
+Example ex_clob :
+  let progs := fun t : tid => match t with
+                 | 0 => [(fun _ : key => 7, [PNew 0; PLock; PReg 0 0; PUnlock; PNew 1; PLock; PReg 0 1; PUnlock])]
+                 | _ => [] end in
+  clob (run2 (repeat (0, 0) 9) (start2 progs)) = true
+  /\ check2 a2init [PNew 0; PLock; PReg 0 0; PUnlock] = false
+  /\ check2 a2init [PNew 0; PLock; PSeqRead 0; PReg 0 0; PSeqInc; PUnlock] = false
+  /\ check2 a2init [PNew 0; PLock; PSeqRead 0; PUnlock; PLock; PSeqInc; PReg 0 0; PUnlock] = false.
 Proof. vm_compute. repeat split; reflexivity. Qed.
 
 (* what bad records: a caller that completes its call while the call is still registered, next to the reader that
